@@ -16,10 +16,16 @@ def run(m, tier='quick'):
             if s.count(old) < 1: return 'STALE', 'pattern not found in ' + file
             s = s.replace(old, new, m.get('count', 1)); open(p, 'w').write(s)
         env = dict(os.environ, MSM_REPO=d, VERIF_EVIDENCE_DIR=d + '/evidence')
+        if m.get('refactor'):
+            sys.path.insert(0, os.path.join(VERIF, 'checks'))
+            import props
+            bad = []
+            for p in sorted(props.PROPS):
+                r = subprocess.run([os.path.join(VERIF, 'check'), p, '--tier', tier], env=env, stdout=subprocess.PIPE, stderr=subprocess.STDOUT, text=True)
+                if r.returncode != 0: bad.append('%s rc=%d: %s' % (p, r.returncode, ' | '.join(l for l in r.stdout.splitlines() if ': rule ' in l or 'BROKEN' in l)[:600]))
+            return ('OK' if not bad else 'FALSE-ALARM'), '\n'.join(bad)
         r = subprocess.run([os.path.join(VERIF, 'check'), m['prop'], '--tier', tier], env=env, stdout=subprocess.PIPE, stderr=subprocess.STDOUT, text=True)
         out = r.stdout
-        if m.get('refactor'):
-            return ('OK' if r.returncode == 0 else 'FALSE-ALARM'), out[-1500:]
         hit = r.returncode == 1 and ('rule ' + m['rule']) in out
         return ('OK' if hit else 'MISSED(rc=%d)' % r.returncode), out[-1500:]
     finally:
